@@ -331,6 +331,150 @@ func c14TwoRounds(p detProg, r *Result) {
 	}
 }
 
+// c14Reuse: one analysed program and ONE compile output are run three times (fresh VM /
+// interpreter each time): later runs must equal the first (nothing a run does may leak into
+// the shared program representation).
+func c14Reuse(name, text string, mods map[string]string, opts func() RunOpts, tree bool, r *Result) {
+	a := Analyze(mods, true)
+	if !a.Obs.Accepted() || a.Obs.Class == "HOST-PANIC" {
+		r.Note("not-accepted", 1)
+		return
+	}
+	prog, pmsg, _ := Compile(a)
+	if pmsg != "" {
+		r.Note("compile-failed(C02)", 1)
+		return
+	}
+	var keys []string
+	for i := 0; i < 3; i++ {
+		o := RunCompiled(prog, opts()) // fresh host values per run
+		k := o.Key()
+		if cc := crashClass(o); cc != "" {
+			k = cc
+		}
+		keys = append(keys, k)
+	}
+	r.Trans(3)
+	r.Sample(text)
+	r.Distinct(name + "|reuse|" + keys[0])
+	if keys[1] != keys[0] || keys[2] != keys[0] {
+		r.Fail("NONDET:a second run of the same compile output differs from the first", []string{"backend:vm"}, text, fmt.Sprintf("run 1:\n%s\nrun 2:\n%s\nrun 3:\n%s", firstN(keys[0], 500), firstN(keys[1], 500), firstN(keys[2], 500)))
+		return
+	}
+	if !tree {
+		return
+	}
+	keys = nil
+	for i := 0; i < 3; i++ {
+		o := RunTree(a, opts())
+		k := o.Key()
+		if cc := crashClass(o); cc != "" {
+			k = cc
+		}
+		keys = append(keys, k)
+	}
+	r.Trans(3)
+	if keys[1] != keys[0] || keys[2] != keys[0] {
+		r.Fail("NONDET:a second interpreter run of the same analysed program differs from the first", []string{"backend:tree"}, text, fmt.Sprintf("run 1:\n%s\nrun 2:\n%s\nrun 3:\n%s", firstN(keys[0], 500), firstN(keys[1], 500), firstN(keys[2], 500)))
+	}
+}
+
+// c14ReuseFamilies: the semantic families whose programs mutate lists, objects, globals and
+// singletons in place.
+var c14ReuseFamilies = []string{"S5-reference-copy", "S6-for-snapshot", "S7-value-positions", "S9-singletons", "S9-triggers"}
+
+func c14ReuseScenario() Scenario {
+	var fams []progFamily
+	for _, n := range c14ReuseFamilies {
+		for _, f := range semanticFamilies {
+			if f.Name == n {
+				fams = append(fams, f)
+			}
+		}
+	}
+	count := func(tier string) int {
+		n := len(c14Progs) + len(c14ReusePrograms)
+		for _, f := range fams {
+			n += f.Count(tier)
+		}
+		return n
+	}
+	return Scenario{Name: "one-compile-output-run-repeatedly", Count: count, Run: func(tier string, idx int, r *Result) {
+		if idx < len(c14Progs) {
+			p := c14Progs[idx]
+			c14Reuse(p.Name, detText(p), p.Mods, defaultOpts, p.Tree, r)
+			return
+		}
+		idx -= len(c14Progs)
+		if idx < len(c14ReusePrograms) {
+			p := c14ReusePrograms[idx]
+			c14Reuse(p.Name, detText(p), p.Mods, defaultOpts, p.Tree, r)
+			return
+		}
+		idx -= len(c14ReusePrograms)
+		for _, f := range fams {
+			if idx < f.Count(tier) {
+				pc, ok := f.Gen(tier, idx)
+				if !ok {
+					r.Note("inapplicable", 1)
+					return
+				}
+				if hasTag(pc.Tags, "closure-capture") {
+					r.Note("skipped:closure-capture", 1)
+					return
+				}
+				c14Reuse(f.Name, pc.P.Text, map[string]string{"main": pc.P.Text}, pc.opts, !hasTag(pc.Tags, "vm-only"), r)
+				return
+			}
+			idx -= f.Count(tier)
+		}
+	}}
+}
+
+// programs that mutate, in place, every kind of value the compiler materialises itself
+var c14ReusePrograms = []detProg{
+	{Name: "singleton-default-mutated-in-place", Mods: map[string]string{"main": `$Counter = { hits: int, log: [str], inner: { n: int } };
+fn hit(c: $Counter) {
+    c.hits += 1;
+    c.log.push("hit");
+    c.inner.n += 1;
+}
+fn show(c: $Counter) {
+    println(c.hits, c.log, c.inner.n);
+}
+fn main() {
+    hit();
+    hit();
+    show();
+}
+`}},
+	{Name: "global-literals-mutated-in-place", Tree: true, Mods: map[string]string{"main": `let L = [1, 2];
+let O = new { a: 1, l: [0] };
+let S = "s";
+fn main() {
+    L.push(3);
+    O.a += 1;
+    O.l.push(1);
+    S += "t";
+    println(L, O.a, O.l, S);
+}
+`}},
+	{Name: "local-literals-mutated-in-place", Tree: true, Mods: map[string]string{"main": `fn mk() -> [int] { [1, 2] }
+fn mko() -> { a: int, l: [int] } { new { a: 1, l: [0] } }
+fn main() {
+    let l = mk();
+    l.push(3);
+    let o = mko();
+    o.a += 1;
+    o.l.push(1);
+    println(l, mk(), o.a, o.l, mko().l);
+    let r = 0..3;
+    for i in r { }
+    for i in r { println(i); }
+}
+`}},
+}
+
 func init() {
 	register("C14", func() *Check {
 		n := len(c14Progs)
@@ -357,6 +501,7 @@ func init() {
 				c14Explore(c14Progs[idx], "s", b, 0, 1, r)
 			}},
 			{Name: "repeated-rounds-in-one-process", Count: func(string) int { return n }, Run: func(_ string, idx int, r *Result) { c14TwoRounds(c14Progs[idx], r) }},
+			c14ReuseScenario(),
 		}}
 	})
 }
